@@ -238,6 +238,17 @@ func nameNum(a gen.Atom) int {
 	return n
 }
 
+// isTimeout: the error is a read-deadline expiry (the handshake code uses 1 s deadlines)
+func isTimeout(err error) bool {
+	if err == nil {
+		return false
+	}
+	if ne, ok := err.(net.Error); ok && ne.Timeout() {
+		return true
+	}
+	return strings.Contains(err.Error(), "timeout") || strings.Contains(err.Error(), "deadline")
+}
+
 func hsErrKind(err error) string {
 	if err == nil {
 		return "ok"
@@ -491,6 +502,15 @@ func runC15Hs(c *Ctx) {
 			cA.Name = cI.Name // a peer with the node's own name
 		}
 		s := runHonest(c.Rng, cI, cA)
+		for try := 0; try < 2 && (isTimeout(s.errI) || isTimeout(s.errA)); try++ {
+			// the handshake's own 1 s read deadline fired: a scheduling hiccup of the machine, not a verdict
+			r.Count("hs.honest.retried-after-timeout")
+			s = runHonest(c.Rng, cI, cA)
+		}
+		if isTimeout(s.errI) || isTimeout(s.errA) {
+			r.Count("hs.inconclusive-timeout")
+			continue
+		}
 		hc := hcase{s: s, line: "honest " + cI.line() + " " + cA.line()}
 		lines = append(lines, hc.line)
 		cases = append(cases, hc)
@@ -561,6 +581,7 @@ func runC15Hs(c *Ctx) {
 		r.Disagree("c15-hs-model", err.Error(), nil)
 		return
 	}
+	honestBroken := false
 	for i, hc := range cases {
 		s := hc.s
 		f := strings.Fields(out[i])
@@ -589,8 +610,12 @@ func runC15Hs(c *Ctx) {
 			}
 		}
 		if what != "" {
-			r.Disagree("c15-hs-honest", what, map[string]interface{}{"line": hc.line})
-			return
+			// reported once; the adversary still runs, so that a failing input is found when there is one
+			if !honestBroken {
+				r.Disagree("c15-hs-honest", what, map[string]interface{}{"line": hc.line})
+			}
+			honestBroken = true
+			continue
 		}
 		r.CountN("hs.digests-compared-bytewise", strings.Count(out[i], "H("))
 		if i < 2 {
@@ -637,8 +662,11 @@ func runC15Hs(c *Ctx) {
 			}
 		}
 		if what != "" {
-			r.Disagree("c15-hs-join", what, map[string]interface{}{"line": jc.line})
-			return
+			if !honestBroken {
+				r.Disagree("c15-hs-join", what, map[string]interface{}{"line": jc.line})
+			}
+			honestBroken = true
+			continue
 		}
 		r.CountN("hs.digests-compared-bytewise", strings.Count(out[len(cases)+j], "H("))
 	}
